@@ -601,7 +601,8 @@ def drive(I, st, it, from_pos=None, one=False):
                     skipped = True
                     break
                 if not r.only("Some"):
-                    cond = "maybe"
+                    gb = (r.variants["Some"][1] or {}).get("bit")
+                    cond = ("bit", gb) if (cond == "always" and gb is not None) else "maybe"
                 e = r.payload("Some")
             elif kind == "map_while":
                 st, r = I.call_value(st, f, [e])
@@ -1580,6 +1581,14 @@ def m_write_fmt(I, st, c, args, body, t):
             text = isinstance(pv, StrV)
             if numeric and p.get("align") == "<":
                 cur = cur.with_issue("line %s: a number is left-aligned" % line)
+            # a one-character cell has no slack: the number in it must be provably one character wide (a width is only a minimum)
+            if numeric and isinstance(pv, IntV) and (p.get("width") is None or w <= 1):
+                top = {"UpperHex": 15, "LowerHex": 15, "Octal": 7, "Binary": 1}.get(p.get("trait"), 9)
+                if not (pv.lo >= 0 and pv.hi <= top):
+                    cur = cur.with_issue("line %s: a one-character cell shows a number in [%s, %s] (%s) - wider than one character above %d"
+                                         % (line, pv.lo, pv.hi, p.get("trait"), top))
+            if text and p.get("prec") is not None and not (pv.skind == "lit" and pv.text == ""):
+                cur = cur.with_issue("line %s: text is cut off by a precision (.%s) - a longer value is shown incompletely" % (line, p.get("prec")))
             if text and p.get("align") == ">" and not (isinstance(pv, StrV) and pv.skind == "lit" and pv.text == ""):
                 cur = cur.with_issue("line %s: text is right-aligned" % line)
             cur = cur.append(w, srcs)
